@@ -3,17 +3,28 @@ import importlib
 
 from .. import core
 from .. import decoders as D
+from .. import tpir
 
 MODULE = 'KdVerif.Props.C17'
 NAMESPACE = 'KdVerif.C17'
 TRUSTED = ['reflection of the seven handlers dicts and of default_trace_codes() into Gen/Decoders.lean and Gen/Codes.lean '
-           '(name keys = big-endian bytes behind a leading 1)', 'IR translator + IR.eval for the twin rendering theorem']
+           '(name keys = big-endian bytes behind a leading 1)', 'IR translator + IR.eval for the twin rendering theorem',
+           'the REGISTRY is no longer taken for granted: ' + tpir.TRUSTED]
 ASSUMPTIONS = []
 LEVEL_TEXT = ('Lean theorems over the reflected decoder table and code table: reachability by a linear merge of sorted keys, '
               'uniqueness of names across families (strictly increasing keys), X_nocancel => X registered, and for every '
               'twin pair the rendering theorem twin_renderings for all windows (kernel-checked normal forms differ only in '
-              'the no_cancel flag piece).')
-LEVEL_NOTE = 'Trusted: Lean kernel, reflection in tools/translate.py, AST translator (validated differentially), IR.eval.'
+              'the no_cancel flag piece).  TRANSLATION TIE of the registry: TracesParser.__init__ is translated on every run '
+              '(tools/gen_pyir.py) into its attribute initialisers and the ORDERED list of families merged by '
+              'self.handlers.update(<family>_handlers); source_is_expected_ir pins the term; registry_ir_eq_model: the registry '
+              'the interpreted constructor merges over the reflected per-family dicts binds a name key to a decoder iff the '
+              'decoder table has that decoder under that key (registry_lookup_eq_find, registry_mem); '
+              'registry_order_independent / registry_any_complete_order: by no_two_families_claim_same_name any permutation of '
+              'the seven updates (any sequence mentioning every family) builds the same registry; registry_of_some_families: a '
+              'family left out loses exactly its names.  Section registry-ir compares the generated registry with '
+              'TracesParser(...).handlers (names, and handlers[name] is <family>_handlers[name]).')
+LEVEL_NOTE = ('Trusted: Lean kernel, reflection in tools/translate.py, AST translator (validated differentially), IR.eval; for the '
+              'registry the translator of __init__ and the dict.update semantics of Model/PyIRTp.merge (tested by registry-ir).')
 TECHNIQUE = 'Lean 4 proof: reflective decide over regenerated tables + rendering theorem; differential correspondence'
 
 FAMILIES = ['bsd', 'dyld', 'fsystem', 'mach', 'perf', 'trace', 'turnstile']
@@ -281,7 +292,22 @@ def dispatch_oracle(rep, rng, tier):
     sec['dist'] = {'decoders_without_in_domain_window': sorted(set(skipped))}
 
 
+def registry_tie(rep):
+    """The registry: is the constructor translated from traces_parser.py the one registry_ir_eq_model is proved for, and does
+    the registry it merges equal TracesParser(...).handlers?"""
+    ans, parts = tpir.check_parts()
+    if parts & {'__init__', '__init__-registry', 'notes'}:
+        rep.broken.append('theorem source_is_expected_ir: the constructor that tools/gen_pyir.py translates from the source text '
+                          'of TracesParser.__init__ (attribute initialisers, the ordered self.handlers.update(<family>_handlers) '
+                          'calls) is not the term of Spec/PyIRTpExpected that registry_ir_eq_model / registry_order_independent '
+                          'are proved for (%s)' % ans)
+    else:
+        rep.notes.append('translation tie: Gen/PyIR.init (from TracesParser.__init__) = Spec/PyIRTpExpected.init')
+    tpir.registry_section(rep)
+
+
 def correspondence(rep, rng, tier):
+    registry_tie(rep)
     seen = table_oracle(rep)
     foreign_tables_history(rep, rng, tier)
     dispatch_oracle(rep, rng, tier)
@@ -301,7 +327,12 @@ def replay(path):
         r = json.load(fd)
     rp = r['replay']
     rep = core.Report('C17', 'quick', 0)
-    if rp.get('section') == 'tables':
+    if rp.get('section') == 'registry-ir':
+        res = tpir.replay_registry(rp)
+        if res:
+            print('oracle:', res[0], '-', res[1])
+            rep.add_failure(res[0], res[1], rp)
+    elif rp.get('section') == 'tables':
         table_oracle(rep)
     elif rp.get('section') == 'foreign-tables':
         foreign_tables_history(rep, random.Random(0), 'quick')
